@@ -23,7 +23,7 @@ RULE = ("one evaluation = one generated history (2-3 client sessions, 6-40 ops: 
 COMPONENTS = {"real": ["subsequence/subsequencesearch.py (SubsequenceSearch, SSMatches, SSMatch)", "dtw.distance / dtw.lb_keogh (Python)",
                        "dtw_cc.distance / lb_keogh (C engine, use_c)", "dtw_ndim.distance"],
               "stub": ["client sessions and their interleaving (seeded scheduler)", "reference model: exhaustive search with /verif/sim/models/dtw_ref.py"]}
-ASSUMPTIONS = ["bounds: query length 1..6, 1..10 candidates of length 1..8, values on a small grid (ties and duplicates on purpose)",
+ASSUMPTIONS = ["bounds: mostly query length 1..6 and 1..10 candidates of length 1..8 (one history in 12: 11..24 candidates of length <= 16, k up to 24, up to ~70 ops); values on a small grid (ties and duplicates on purpose)",
                "thresholds are placed at least 1e-4 away from every true distance, or exactly on one where it is an exactly representable integer",
                "index comparisons are tie-aware; comparisons against a fresh object compare counts and distances (rel. tol 1e-9: a cached answer may come from the other engine)"]
 TOL = 1e-9
@@ -49,13 +49,14 @@ def gen_history(st):
             return [[val() for _ in range(d)] for _ in range(L)]
         return [val() for _ in range(L)]
 
-    lq = 1 + rng.below(6)
+    big = rng.below(12) == 0          # swarm sizing: one history in 12 has many / long candidates and larger k
+    lq = 5 + rng.below(8) if big else 1 + rng.below(6)
     query = series(lq)
-    n = 1 + rng.below(10)
+    n = 11 + rng.below(14) if big else 1 + rng.below(10)
     equal = rng.below(2) == 0
     cands = []
     for i in range(n):
-        L = lq if equal else 1 + rng.below(8)
+        L = lq if equal else 1 + rng.below(16 if big else 8)
         cands.append(series(L))
         if i > 0 and rng.below(4) == 0:
             cands[i] = copy.deepcopy(cands[rng.below(i)])
@@ -120,11 +121,11 @@ def gen_history(st):
         programs[rng.below(nsess)].append(spec)
     vid = 0
     for s in range(nsess):
-        for _ in range(2 + rng.below(9)):
+        for _ in range((8 + rng.below(16)) if big else (2 + rng.below(9))):
             oi = rng.below(nobj)
             k = rng.below(20)
             if k < 9:
-                kk = rng.choice([1, 1, 2, 3, n, n + 1, None, 1 + rng.below(n + 1), 1 + rng.below(n + 1)])
+                kk = rng.choice([1, 1, 2, 3, n, n + 1, None, 1 + rng.below(n + 1), 1 + rng.below(n + 1)] + ([11, 12, 15, n - 1] if big else []))
                 programs[s].append({"op": "kbest", "obj": oi, "k": kk, "fast": rng.below(6) == 0, "view": vid}); vid += 1
             elif k < 11:
                 programs[s].append({"op": "best_match", "obj": oi, "fast": rng.below(8) == 0, "view": vid}); vid += 1
